@@ -227,8 +227,9 @@ def run(rep, F, tier, only=None, rule="R2.6"):
     # helpers first (compositional): value_in_between, point_in_rect
     try:
         f = F.one(r"^geo::algorithm::intersects::value_in_between$", crates=("geo",))
-        w = (({("arg", 1): v, ("arg", 2): a, ("arg", 3): b}, min(a, b) <= v <= max(a, b), "value %s between %s,%s" % (v, a, b))
-             for v, a, b in itertools.product(range(4), repeat=3))
+        # small integers, and the same configurations at magnitudes where a product of two offsets underflows / overflows (the test is a comparison, not arithmetic)
+        w = (({("arg", 1): v * k, ("arg", 2): a * k, ("arg", 3): b * k}, min(a, b) <= v <= max(a, b), "value %s between %s,%s" % (v * k, a * k, b * k))
+             for k in (1, 2.0 ** -600, 2.0 ** 600) for v, a, b in itertools.product(range(4), repeat=3))
         check(rep, "value_in_between", F, f, w, bool_out, no_inline=[])
         f = F.one(r"^geo::algorithm::intersects::point_in_rect$", crates=("geo",))
         w = (({("arg", 1): v, ("arg", 2): a, ("arg", 3): b}, m_point_in_rect(Evaluator(F, {}), [("const", 0)] * 0 or [v, a, b]) if False else
